@@ -177,3 +177,79 @@ func containStage(r *ev.Run, th bool) {
 	}
 	r.Set("containment_shapes", len(shapes)+len(s2))
 }
+
+// solidBallStage: SolidCollider.SphereCollision ("the solid touches the ball", decided by sampling the ball on a grid
+// of spacing Epsilon). Two-sided oracle with the documented resolution: a ball that does not reach the solid must be
+// reported as not touching (every sample lies in the ball), and a ball whose intersection with the solid contains a
+// whole grid cell (an inscribed ball of radius sqrt(3)/2 x Epsilon) must be reported as touching; in between either
+// answer is accepted and counted.
+func solidBallStage(r *ev.Run, th bool) {
+	type sc struct {
+		name   string
+		solid  model3d.Solid
+		out    func(c model3d.Coord3D) float64              // distance from c to the solid (0 inside)
+		lens   func(c model3d.Coord3D, rad float64) float64 // radius of a ball certainly inside ball(c,rad) and the solid
+		centre model3d.Coord3D
+		ext    float64
+	}
+	sph := &model3d.Sphere{Center: model3d.XYZ(0.2, -0.1, 0.3), Radius: 1}
+	box := model3d.NewRect(model3d.XYZ(-1, -0.5, -0.25), model3d.XYZ(0.5, 1, 1.5))
+	shapes := []sc{
+		{"sphere", sph, func(c model3d.Coord3D) float64 { return math.Max(0, c.Dist(sph.Center)-1) },
+			func(c model3d.Coord3D, rad float64) float64 {
+				return math.Min(math.Min(rad, 1), (rad+1-c.Dist(sph.Center))/2)
+			}, sph.Center, 1},
+		{"rect", box, func(c model3d.Coord3D) float64 {
+			d := c.Sub(c.Max(box.MinVal).Min(box.MaxVal))
+			return d.Norm()
+		}, func(c model3d.Coord3D, rad float64) float64 {
+			// only for centres inside the box: the margin to the nearest face, capped by the radius
+			m := math.Inf(1)
+			for ax := 0; ax < 3; ax++ {
+				m = math.Min(m, math.Min(c.Array()[ax]-box.MinVal.Array()[ax], box.MaxVal.Array()[ax]-c.Array()[ax]))
+			}
+			return math.Min(m, rad)
+		}, box.MinVal.Mid(box.MaxVal), 1.2},
+	}
+	n := 5
+	if th {
+		n = 7
+	}
+	var undecided int64
+	for _, sh := range shapes {
+		for _, eps := range []float64{0.25, 0.1} {
+			coll := &model3d.SolidCollider{Solid: sh.solid, Epsilon: eps}
+			rho := eps * math.Sqrt(3) / 2 * 1.01
+			for i := 0; i < n; i++ {
+				for j := 0; j < n; j++ {
+					for k := 0; k < n; k++ {
+						f := func(t int) float64 { return (float64(t)/float64(n-1)*2 - 1) * 1.7 * sh.ext }
+						c := sh.centre.Add(model3d.XYZ(f(i)+0.0137, f(j)-0.0071, f(k)+0.0093))
+						for _, rad := range []float64{0.3, 0.6, 1.1} {
+							r.Eval(1)
+							got := coll.SphereCollision(c, rad)
+							d := sh.out(c)
+							cs := containCase{fmt.Sprintf("SolidCollider(%s, eps=%g)", sh.name, eps), []float64{c.X, c.Y, c.Z}, rad}
+							switch {
+							case d > rad*(1+1e-9):
+								if got {
+									r.Violation("SolidCollider/sphere-collision", fmt.Sprintf("%s: SphereCollision(%v, %g) = true, but the solid is %g away from the centre", cs.Shape, c, rad, d), cs)
+									return
+								}
+							case sh.lens(c, rad) >= rho:
+								if !got {
+									r.Violation("SolidCollider/sphere-collision", fmt.Sprintf("%s: SphereCollision(%v, %g) = false, but ball and solid share a ball of radius %g, more than a whole sampling cell", cs.Shape, c, rad, sh.lens(c, rad)), cs)
+									return
+								}
+							default:
+								undecided++
+							}
+						}
+					}
+				}
+			}
+			r.NontrivialAdd(1)
+		}
+	}
+	r.Set("solid_collider_ball_queries_within_sampling_resolution_not_judged", undecided)
+}
